@@ -308,8 +308,10 @@ func (env *Env) eval0(e ast.Expr) Val {
 				return Val{T: Select(av.T, i.T), Sort: fc.so.sortOf(arr.Elem()), Typ: arr.Elem()}
 			}
 		case *types.Map:
-			_, vh := fc.mapHeaps(u)
-			return Val{T: Select(Select(fc.H(env.st, vh), x.T), i.T), Sort: fc.so.sortOf(u.Elem()), Typ: u.Elem()}
+			// m[k] yields the zero value for absent keys (and for a nil map)
+			dh, vh := fc.mapHeaps(u)
+			in := And(Not(Eq(x.T, "nilR")), Select(Select(fc.H(env.st, dh), x.T), i.T))
+			return Val{T: Ite(in, Select(Select(fc.H(env.st, vh), x.T), i.T), fc.so.zero(u.Elem())), Sort: fc.so.sortOf(u.Elem()), Typ: u.Elem()}
 		case *types.Basic:
 			return intVal(App("str.to_code", App("str.at", x.T, i.T)))
 		}
@@ -788,6 +790,37 @@ func (env *Env) evalCall(e *ast.CallExpr) Val {
 				return x
 			}
 			return fc.makeIface(env.st, x, x.Typ, it)
+		case "mkstruct":
+			// mkstruct(T, v1, v2, ...): a struct value of type T
+			t := env.resolveType(e.Args[0])
+			si := fc.so.structOf(t)
+			if len(e.Args)-1 != len(si.fields) {
+				bail("mkstruct: wrong number of fields")
+			}
+			var fs []string
+			for _, a := range e.Args[1:] {
+				fs = append(fs, env.eval(a).T)
+			}
+			return Val{T: App(si.ctor, fs...), Sort: si.sort, Typ: t}
+		case "eltaddr":
+			// eltaddr(s, i): the address of element i of slice s
+			sl := env.eval(e.Args[0])
+			i := env.eval(e.Args[1])
+			st, ok := sl.Typ.Underlying().(*types.Slice)
+			if !ok {
+				bail("eltaddr: not a slice")
+			}
+			return Val{T: App("Elt", App("sarr", sl.T), App("at", App("soff", sl.T), i.T)), Sort: "Ref", Typ: types.NewPointer(st.Elem())}
+		case "anyval":
+			// anyval(name, T): an arbitrary (universally quantified) value of Go type T, used in lemmas
+			name := e.Args[0].(*ast.Ident).Name
+			t := env.resolveType(e.Args[1])
+			sym := Sym("any!" + name)
+			fc.sc.Decl(sym, nil, fc.so.sortOf(t))
+			if inv := fc.typeInvTry(t, sym); inv != "" && inv != "true" {
+				fc.sc.Axiom(inv, sym)
+			}
+			return Val{T: sym, Sort: fc.so.sortOf(t), Typ: t}
 		case "tuple0", "tuple1", "tuple2":
 			x := env.eval(e.Args[0])
 			k := int(id.Name[5] - '0')
@@ -869,8 +902,36 @@ func (env *Env) evalCall(e *ast.CallExpr) Val {
 			fc.inQuant++
 			body := sub.evalBool(e.Args[1])
 			fc.inQuant--
+			// nested gforall: merge into one quantifier with a trigger that mentions every bound variable
+			if strings.HasPrefix(body, "(forall (") {
+				parts := splitSexp(body) // forall, binders, matrix
+				if len(parts) == 3 {
+					binders := "(" + fmt.Sprintf("(%s Iface) ", bv) + parts[1][1:]
+					matrix := parts[2]
+					if strings.HasPrefix(matrix, "(! ") {
+						mp := splitSexp(matrix)
+						if len(mp) >= 2 {
+							matrix = mp[1]
+						}
+					}
+					var vars []string
+					for _, b := range splitSexp(binders) {
+						if bp := splitSexp(b); len(bp) == 2 {
+							vars = append(vars, bp[0])
+						}
+					}
+					if pat := appPatternAll(matrix, vars); pat != "" {
+						return boolVal(fmt.Sprintf("(forall %s (! %s :pattern (%s)))", binders, matrix, pat))
+					}
+					return boolVal(fmt.Sprintf("(forall %s %s)", binders, matrix))
+				}
+			}
 			if pats := selectPatterns(body, bv); len(pats) > 0 {
 				return boolVal(fmt.Sprintf("(forall ((%s Iface)) (! %s :pattern (%s)))", bv, body, pats[0]))
+			}
+			// pattern: the first pure application mentioning all bound variables
+			if pat := appPattern(body, bv); pat != "" {
+				return boolVal(fmt.Sprintf("(forall ((%s Iface)) (! %s :pattern (%s)))", bv, body, pat))
 			}
 			return boolVal(fmt.Sprintf("(forall ((%s Iface)) %s)", bv, body))
 		case "disjoint":
@@ -896,6 +957,10 @@ func (env *Env) evalCall(e *ast.CallExpr) Val {
 			return boolVal(And(Not(Eq(m.T, "nilR")), Select(Select(fc.H(env.st, d), m.T), k.T)))
 		case "int", "int64", "uint", "uint32", "uint64":
 			return env.eval(e.Args[0])
+		case "umod":
+			// mathematical (non-negative) remainder, as in conversion to an unsigned type
+			x, m := env.eval(e.Args[0]), env.eval(e.Args[1])
+			return intVal(App("mod", x.T, m.T))
 		case "real":
 			x := env.eval(e.Args[0])
 			if x.Sort == "Real" {
@@ -1075,7 +1140,7 @@ func selectPatterns(body, bv string) []string {
 		if len(args) == 0 {
 			return
 		}
-		if args[0] == "select" && len(args) == 3 && mentions(args[2], bv) && !mentions(args[1], bv) {
+		if args[0] == "select" && len(args) == 3 && mentions(args[2], bv) && !mentions(args[1], bv) && patternOK(t) {
 			pats = append(pats, t)
 			return
 		}
@@ -1086,6 +1151,72 @@ func selectPatterns(body, bv string) []string {
 	walk(body)
 	// prefer patterns over the current (non-old) state: the first one found
 	return pats
+}
+
+// appPattern finds an application of an uninterpreted function (f!...) in body that mentions bv and can serve as a trigger.
+func appPattern(body, bv string) string {
+	var found string
+	var walk func(t string)
+	walk = func(t string) {
+		if found != "" || !strings.HasPrefix(t, "(") {
+			return
+		}
+		args := splitSexp(t)
+		if len(args) == 0 {
+			return
+		}
+		if (strings.HasPrefix(args[0], "f!") || strings.HasPrefix(args[0], "|f!")) && mentions(t, bv) && patternOK(t) {
+			found = t
+			return
+		}
+		for _, a := range args[1:] {
+			walk(a)
+		}
+	}
+	walk(body)
+	return found
+}
+
+// appPatternAll: an uninterpreted application mentioning all the given variables.
+func appPatternAll(body string, vars []string) string {
+	var found string
+	var walk func(t string)
+	walk = func(t string) {
+		if found != "" || !strings.HasPrefix(t, "(") {
+			return
+		}
+		args := splitSexp(t)
+		if len(args) == 0 {
+			return
+		}
+		if (strings.HasPrefix(args[0], "f!") || strings.HasPrefix(args[0], "|f!")) && patternOK(t) {
+			all := true
+			for _, v := range vars {
+				if !mentions(t, v) {
+					all = false
+				}
+			}
+			if all {
+				found = t
+				return
+			}
+		}
+		for _, a := range args[1:] {
+			walk(a)
+		}
+	}
+	walk(body)
+	return found
+}
+
+// patternOK: E-matching patterns must not contain interpreted Boolean/arith-comparison structure.
+func patternOK(t string) bool {
+	for _, bad := range []string{"(ite ", "(and ", "(or ", "(not ", "(=> ", "(= ", "(< ", "(<= ", "(> ", "(>= ", "(forall ", "(exists ", "(_ is"} {
+		if strings.Contains(t, bad) {
+			return false
+		}
+	}
+	return true
 }
 
 func mentions(t, sym string) bool {
